@@ -3,7 +3,7 @@
     (round trip; a proper prefix raises EOFError): the model never looks into a payload. *)
 From Coq Require Import List NArith ZArith Bool.
 Import ListNotations.
-From Verif Require Export Common.ListX Gen.Tables C14.Cache C14.Spec.
+From Verif Require Export Common.ListX Gen.Tables C14.Cache C14.Spec C14.Reload.
 
 (** ** toy marshal: the dump of code [c] is [L] copies of the byte [c] *)
 Definition tcode := N.
@@ -65,13 +65,29 @@ Inductive pert :=
 | PTouch (delta : Z)           (* the source's mtime moved by delta *)
 | PEdit (extra delta : Z).     (* the source was edited: extra bytes, mtime moved by delta *)
 
+(** one step of an in-process history *)
+Inductive hstep :=
+| HImport | HReload | HInvalidate
+| HEdit (ver : N) (mtime size : Z)     (* the source becomes version [ver] with these stats *)
+| HTouch (p : pert).                   (* damage to the cache file as it is at that moment *)
+
+(** what a history shows at each import / reload *)
+Inductive hobs :=
+| HLoad (visible : N) (used_cache recompiled : bool) (decode_exc : option exc) (cache_valid_after : bool)
+| HAlready (visible : N)
+| HNotLoaded.
+
 Inductive case :=
 | CSweep (hdr : bytes) (paylen : N) (mtime size : Z)
 | CBatch (paylen : N) (vs : list variant)
 | CStale (m s m' s' : Z)       (* written for (m, s), read against (m', s') *)
 | CKwOps (ops : list (N * N * bool))          (* (name, hash variant, literal?) *)
 | CImport (p : pert) (mtime size : Z) (cross dwb again : bool)
-| CXerr (e : exc).
+| CXerr (e : exc)
+| CShape                       (* static: who stats the source file, read off importer.py *)
+| CHist (dwb again : bool) (mtime size : Z) (steps : list hstep).
+       (* one process: version 1 of the source with these stats, no cache file, then the
+          steps; [again]: afterwards a fresh process imports the namespace *)
 
 Inductive out :=
 | OSweep (l : list (N * dres))
@@ -81,12 +97,26 @@ Inductive out :=
 | OImport (written_valid loaded recompiled same cache_valid_after again_ok kw_identical kw_sem : bool)
           (decode_exc : option exc)
 | OXerr (ref_ticks ticks : N) (ref_raised raised : option exc)
+| OHist (l : list hobs)
+| OShape (stats_in_spec : option bool)
+       (* Some false: exec_module calls path_stats(filename) at every execution and validates /
+          writes the cache with that; Some true: find_spec puts the stats into loader_state and
+          exec_module reads them from the spec; None: neither shape recognised *)
 | OErr (n : N).
 
 Definition oexc_eqb := option_eqb exc_eqb.
 Definition b4_eqb (a b : bool * bool * bool * bool) : bool :=
   let '(a1, a2, a3, a4) := a in let '(b1, b2, b3, b4) := b in
   Bool.eqb a1 b1 && Bool.eqb a2 b2 && Bool.eqb a3 b3 && Bool.eqb a4 b4.
+
+Definition hobs_eqb (a b : hobs) : bool :=
+  match a, b with
+  | HLoad v u r e c, HLoad v' u' r' e' c' =>
+      N.eqb v v' && Bool.eqb u u' && Bool.eqb r r' && oexc_eqb e e' && Bool.eqb c c'
+  | HAlready v, HAlready v' => N.eqb v v'
+  | HNotLoaded, HNotLoaded => true
+  | _, _ => false
+  end.
 
 Definition out_eqb (a b : out) : bool :=
   match a, b with
@@ -98,6 +128,8 @@ Definition out_eqb (a b : out) : bool :=
       Bool.eqb a1 b1 && Bool.eqb a2 b2 && Bool.eqb a3 b3 && Bool.eqb a4 b4 && Bool.eqb a5 b5
       && Bool.eqb a6 b6 && Bool.eqb a7 b7 && Bool.eqb a8 b8 && oexc_eqb e e'
   | OXerr a1 a2 e1 e2, OXerr b1 b2 e1' e2' => N.eqb a1 b1 && N.eqb a2 b2 && oexc_eqb e1 e1' && oexc_eqb e2 e2'
+  | OHist x, OHist y => list_eqb hobs_eqb x y
+  | OShape x, OShape y => option_eqb Bool.eqb x y
   | OErr x, OErr y => N.eqb x y
   | _, _ => false
   end.
@@ -182,6 +214,71 @@ Definition kwops_model (ops : list (N * N * bool)) : out :=
                 kwname_eqb (k_name k) (k_name ref), Z.eqb (k_hash k) (k_hash ref) && kwname_eqb (k_name k) (k_name ref))))
            (combine ops objs)).
 
+(** *** the model of the in-process histories *)
+(** the damage, on the bytes of the file as it is ([m], [s]: stats of the source now) *)
+Definition touch_bytes (p : pert) (m s : Z) (d : bytes) : option bytes :=
+  match p with
+  | PMissing => None
+  | PTrunc n => Some (firstn (N.to_nat n) d)
+  | PTruncPay num den =>
+      if Nat.ltb (length d) 12 then Some d
+      else Some (firstn (12 + N.to_nat (N.of_nat (length d - 12) * num / den)) d)
+  | PTruncTail n => Some (firstn (length d - N.to_nat n) d)
+  | PMagic b => Some (b ++ skipn 4 d)
+  | PHdrMtime dl => Some (firstn 4 d ++ w_long (m + dl) ++ skipn 8 d)
+  | PHdrSize dl => Some (firstn 8 d ++ w_long (s + dl) ++ skipn 12 d)
+  | PNone | PTouch _ | PEdit _ _ => Some d
+  end.
+
+Definition hstate : Type := state tcode N.
+
+Definition h_step (f : fs N) (h : hstep) : step N :=
+  match h with
+  | HImport => SImport
+  | HReload => SReload
+  | HInvalidate => SInvalidate
+  | HEdit v m s => SEdit v m s
+  | HTouch p => SSetCache (match f_cache f with
+                           | Some d => touch_bytes p (f_mtime f) (f_size f) d
+                           | None => None
+                           end)
+  end.
+
+Definition h_do (in_spec dwb : bool) (st : hstate) (h : hstep) : obs tcode N * hstate :=
+  do_step tcode (t_dumps TL) (t_loads TL) N i_compile (fun _ => None) in_spec dwb st (h_step (fst st) h).
+
+Definition is_cached (e : event tcode) : bool := match e with EvRunCached _ => true | _ => false end.
+Definition visible_of (p : proc tcode) : N := match p_vars p with Some c => c | None => 0%N end.
+
+Definition h_obs (f : fs N) (o : obs tcode N) (st' : hstate) : list hobs :=
+  match o with
+  | ONothing => []
+  | OAlready => [HAlready (visible_of (snd st'))]
+  | ONotLoaded => [HNotLoaded]
+  | OLoad r =>
+      let f' := fst st' in
+      [HLoad (visible_of (snd st'))
+             (existsb is_cached (r_trace r)) (existsb is_source (r_trace r))
+             (match get_cached_code tcode (t_loads TL) N f with Raise e => Some e | Ok _ => None end)
+             (is_valid importer_magic (f_mtime f') (f_size f') (t_dumps TL (i_compile (f_src f'))) (f_cache f'))]
+  end.
+
+Fixpoint h_run (in_spec dwb : bool) (st : hstate) (hs : list hstep) : list hobs * hstate :=
+  match hs with
+  | [] => ([], st)
+  | h :: r =>
+      let (o, st') := h_do in_spec dwb st h in
+      let (os, st'') := h_run in_spec dwb st' r in
+      (h_obs (fst st) o st' ++ os, st'')
+  end.
+
+Definition hist_model_gen (in_spec dwb again : bool) (m s : Z) (hs : list hstep) : out :=
+  let (os, st) := h_run in_spec dwb (mkfs 1%N m s None, fresh) hs in
+  OHist (os ++ (if again then fst (h_run in_spec dwb (fst st, fresh) [HImport]) else [])).
+
+(** the code as it is: exec_module stats the source at every execution *)
+Definition hist_model := hist_model_gen false.
+
 Definition model (c : case) : out :=
   match c with
   | CSweep hdr L m s => OSweep (rle (sweep hdr (N.to_nat L) m s))
@@ -192,6 +289,8 @@ Definition model (c : case) : out :=
   | CKwOps ops => kwops_model ops
   | CImport p m s cross dwb again => import_model p m s cross dwb again
   | CXerr e => xerr_model e
+  | CHist dwb again m s hs => hist_model dwb again m s hs
+  | CShape => OShape (Some false)
   end.
 
 (** ** the specification on the same observables *)
@@ -230,6 +329,44 @@ Definition pert_valid (p : pert) : bool :=
   | PEdit _ _ | PMissing | PTrunc _ | PTruncPay _ _ | PTruncTail _ => false
   end.
 
+(** histories: the abstract effect of each step, and the reference semantics of Spec.v *)
+Definition r_step (h : hstep) : rstep :=
+  match h with
+  | HImport => RImport
+  | HReload => RReload
+  | HInvalidate => RInvalidate
+  | HEdit v m s => REdit v m s
+  | HTouch p =>
+      match p with
+      | PMissing | PTrunc _ => RBreak
+      | PTruncPay num den => if N.ltb num den then RBreak else RSkip
+      | PTruncTail n => if N.eqb n 0 then RSkip else RBreak
+      | PMagic b => if bytes_eqb b importer_magic then RSkip else RBreak
+      | PHdrMtime d => RHdrMtime d
+      | PHdrSize d => RHdrSize d
+      | PNone | PTouch _ | PEdit _ _ => RSkip
+      end
+  end.
+
+Definition hobs_ok (e : robs) (o : hobs) : bool :=
+  match e, o with
+  | RLoad v fc cva, HLoad v' used rec de cva' =>
+      N.eqb v v' && Bool.eqb used fc && Bool.eqb rec (negb fc) && Bool.eqb (is_none de) fc
+      && (match de with Some x => caught x | None => true end) && Bool.eqb cva cva'
+  | RAlready v, HAlready v' => N.eqb v v'
+  | RNotLoaded, HNotLoaded => true
+  | _, _ => false
+  end.
+
+(** expected observations, and whether "mtime and size identify the content" held at
+    every load of the history (where it does not the property requires nothing) *)
+Definition spec_hist (dwb again : bool) (m s : Z) (hs : list hstep) : list robs * bool :=
+  let '(os, h, st) := ref_hist dwb (mkrs 1%N m s None false 0%N) (map r_step hs) in
+  if again then
+    let '(os2, h2, _) := ref_hist dwb (mkrs (rs_ver st) (rs_mtime st) (rs_size st) (rs_cache st) false 0%N) [RImport] in
+    (os ++ os2, h && h2)
+  else (os, h).
+
 Definition spec_ok (c : case) (o : out) : bool :=
   match c, o with
   | CSweep hdr L m s, OSweep l =>
@@ -261,5 +398,12 @@ Definition spec_ok (c : case) (o : out) : bool :=
       && kid && ksem
   | CXerr e, OXerr rt t rr r =>
       N.eqb rt 1 && N.eqb t 1 && oexc_eqb rr (Some e) && oexc_eqb r (Some e)
+  | CHist dwb again m s hs, OHist l =>
+      let (exp, honest) := spec_hist dwb again m s hs in
+      if honest then forall2b hobs_ok exp l else true
+  | CShape, OShape r =>
+      (* the shape for which C14_reload_sees_current_source is stated (the other one is
+         refuted by C14_reload_stale_when_stats_in_spec) *)
+      option_eqb Bool.eqb r (Some false)
   | _, _ => false
   end.
